@@ -287,6 +287,26 @@ Proof. exact ri_Prev_nonempty_spec. Qed.
 Print Assumptions cell_index_nonempty_prev_is_closest_nonempty_predecessor.
 
 
+(** invariant over histories ([ri_run]: the positions after each operation).
+    [ib_legal rs adv nonEmpty pos ops] follows the state of [ri_run] and says: OpNext is only applied
+    when the current position is not Done, and OpAdvance k only if [adv = true], and then with 0 <= k.
+    Non-empty iterator, started on a non-empty range or on the Done position, with
+    Begin / Next / Prev / Seek t / Finish: after every operation it is in range and stands on a
+    non-empty range unless it is Done.  OpAdvance is EXCLUDED ([adv = false]): the non-empty iterator
+    inherits Advance unfiltered and it may land on an empty range
+    (Proofs/C11_IterBack.v, [ib_history_advance_refuted]).
+    Plain iterator, all six operations (Advance with 0 <= k): it stays within 0..n-1. *)
+Theorem cell_index_nonempty_iterator_stays_on_nonempty_ranges : forall rs, 1 <= Z.of_nat (length rs) ->
+  let n := Z.of_nat (length rs) in
+  (forall ops pos0, (0 <= pos0 <= n - 1 /\ (pos0 < n - 1 -> ri_IsEmpty rs pos0 = false)) ->
+     ib_legal rs false true pos0 ops ->
+     Forall (fun p => 0 <= p <= n - 1 /\ (p < n - 1 -> ri_IsEmpty rs p = false)) (map fst (ri_run rs true pos0 ops))) /\
+  (forall ops pos0, 0 <= pos0 <= n - 1 -> ib_legal rs true false pos0 ops ->
+     Forall (fun p => 0 <= p <= n - 1) (map fst (ri_run rs false pos0 ops))).
+Proof. intros rs H. split; [exact (ib_history_stop rs H)|exact (ib_history_plain_range rs H)]. Qed.
+Print Assumptions cell_index_nonempty_iterator_stays_on_nonempty_ranges.
+
+
 (** * s2intersect.Find (model Model/Intersect.v) -----------------------------------
     [members cus x] = the sorted list of the indices of the unions covering leaf x. *)
 Theorem find_spec : forall cus, Forall (Forall valid) cus ->
